@@ -42,19 +42,31 @@ BOUNDS = {
                   RefCDIds={5}, RefLonIds=set(range(1, 10)), RefLatIds=set(range(1, 9)),
                   HistCalls=CALLS6, MaxHist=4, ShortKinds={"TAN", "SIP"}, HistArgModes={"scalar", "buffer"},
                   WorldCalls={"s2i_dr", "s2i_dp"}, WorldLen=3, WorldRelIds={1, 2, 3, 4}, WorldKinds={"TPV", "SIP"},
-                  ReprCalls={"i2s_d", "s2i_dr", "s2i_dp", "s2i_np", "jac"}, ReprKinds={"TAN", "TPV", "SIP"}),
+                  ReprCalls={"i2s_d", "s2i_dr", "s2i_dp", "s2i_np", "jac"}, ReprKinds={"TAN", "TPV", "SIP"},
+                  AngCDIds={9}, AngPixIds={6}),
     "thorough": dict(Projs=_ALL, CDIds={1, 2, 5, 7, 9, 12}, PixIds=set(range(1, 6)), CrpixIds={1, 2}, MaxExtra=1, SipMaxOrder=4,
                      SkyCDIds=set(range(1, 9)), SkyLons={0, 10, 90, 180, 270, 350, 359},
                      SkyLats={0, 1, 30, 45, 60, 90, 120, 135, 140, 150, 175, 180},
                      RefCDIds={1, 5, 9}, RefLonIds=set(range(1, 10)), RefLatIds=set(range(1, 9)),
                      HistCalls=CALLS7, MaxHist=4, ShortKinds=set(), HistArgModes={"scalar", "buffer"},
                      WorldCalls={"s2i_dr", "s2i_dp", "jac"}, WorldLen=3, WorldRelIds=set(range(1, 9)), WorldKinds={"TPV", "SIP"},
-                     ReprCalls=CALLS7, ReprKinds={"TAN", "TPV", "SIP"}),
+                     ReprCalls=CALLS7, ReprKinds={"TAN", "TPV", "SIP"}, AngCDIds={5, 9}, AngPixIds={1, 6}),
 }
 # thorough, second class run: pairs of coefficients on a smaller pixel / CD product
 PAIRS = dict(CDIds={2, 5, 9, 12}, PixIds={1, 3, 6}, CrpixIds={2}, MaxExtra=2, SipMaxOrder=3, OrdVariety=False)
 FIXED = dict(Repaired=True, PVMapVariant="pinned", HistVariant="pinned", PolyVariant="pinned", OrdVariety=True, DoExport=False,
-             HistKinds={"TAN", "TPV", "SIP"}, WorldVariant="pinned")
+             HistKinds={"TAN", "TPV", "SIP"}, WorldVariant="pinned",
+             AngVariant="pinned", HistAngs={"default"}, LifeCalls=set(), LifeVariant="pinned")
+# third history run: life-cycle steps (copy / deepcopy / pickle round trip; the caller goes on with the copy) x where the
+# object got its projection angles (default | header cards | constructor keywords)
+LIFE_OPS = {"copy", "deepcopy", "pickle"}
+ANG_PLACES = {"default", "header", "keyword"}
+LIFE_HIST = {"quick": dict(HistCalls={"i2s_d", "s2i_dr", "s2i_dp"}, LifeCalls=LIFE_OPS, HistAngs=ANG_PLACES, MaxHist=3, ShortKinds=set(),
+                           HistArgModes={"scalar"}),
+             "thorough": dict(HistCalls={"i2s_d", "s2i_dr", "s2i_dp"}, LifeCalls=LIFE_OPS, HistAngs=ANG_PLACES, MaxHist=4, ShortKinds=set(),
+                              HistArgModes={"scalar"})}
+# the angles of the history objects (not on the lattice: every result is compared with a fresh object constructed the same way)
+HIST_ANGLES = dict(longpole=150.0, latpole=60.0, theta0=90.0)
 # second history run: the option calls (one call shorter); long random histories by tlc -simulate
 OPT_HIST = {"quick": dict(HistCalls=OPT_CALLS - {"i2s_d", "jac_n"}, MaxHist=3, ShortKinds={"TAN", "SIP"}, HistArgModes={"scalar"}),
             "thorough": dict(HistCalls=OPT_CALLS, MaxHist=4, ShortKinds={"TAN", "SIP"}, HistArgModes={"scalar"})}
@@ -120,6 +132,57 @@ def obs_class(args):
     o["rel"] = L.sky_rel(sky, rsky)
     x_.update(sky=[float(sky[0]), float(sky[1])], rep_sky=[float(rsky[0]), float(rsky[1])])
     return {"id": rid, "kind": "class", "c": c, "o": o, "x": x_}
+
+
+def ang_construct(W, hdr, ang):
+    """the constructor call for the angle record [place, lp, latp] of Wcs.tla"""
+    lp, latp = float(ang["lp"]), float(ang["latp"])
+    if ang["place"] == "header":
+        return W(dict(hdr, longpole=lp, latpole=latp, theta0=90.0))
+    if ang["place"] == "keyword":
+        return W(hdr, longpole=lp, latpole=latp, theta0=90.0)
+    return W(hdr)
+
+
+def obs_angclass(args):
+    """a header with projection angles given as cards / constructor keywords against the pure-TAN member (default angles)
+    of the class TLC computed: World rotated by LonpoleRot"""
+    rid, c, k = args
+    W = _wcs().WCS
+    s, crval, base, pv3 = L.concretisation(k)
+    try:
+        hdr = L.make_header(c["h"], s, crval, base, pv3)
+        x, y = L.pixel(c["h"], c["pix"], base)
+        rhdr = L.make_header(L.TAN_REP, s, crval)
+        rx, ry = L.pixel(L.TAN_REP, c["rep"])
+    except L.LatticeError as e:
+        raise MachineryError("angle class case off the lattice: %s (%s)" % (e, c))
+    o = {"err": "none", "rel": "off"}
+    x_ = {"stage": "", "k": k}
+    cm = _quiet()
+    try:
+        with np.errstate(all="ignore"):
+            stage = "construct"
+            try:
+                w = ang_construct(W, hdr, c["ang"])
+                stage = "call"
+                sky = w.image2sky(x, y, distort=c["distort"])
+                sky2 = w.image2sky(np.array([x, x]), np.array([y, y]), distort=c["distort"])
+            except Exception as e:  # noqa
+                o["err"] = type(e).__name__
+                x_["stage"] = stage
+                x_["msg"] = str(e)[:120]
+                return {"id": rid, "kind": "angclass", "c": c, "o": o, "x": x_}
+            try:
+                rsky = W(rhdr).image2sky(rx, ry)
+            except Exception as e:  # noqa
+                raise MachineryError("pure-TAN representative failed: %r" % e)
+    finally:
+        cm.__exit__(None, None, None)
+    rels = [L.sky_rel(sky, rsky), L.sky_rel((sky2[0][1], sky2[1][1]), rsky)]
+    o["rel"] = "off" if "off" in rels else "close" if "close" in rels else "same"
+    x_.update(sky=[float(sky[0]), float(sky[1])], rep_sky=[float(rsky[0]), float(rsky[1])])
+    return {"id": rid, "kind": "angclass", "c": c, "o": o, "x": x_}
 
 
 def _sky_obs(skies, allowed, lonfree_ok=True):
@@ -496,10 +559,34 @@ def _hist_sky(hk, hidx, k, rel="base"):
     return _SKIES[key]
 
 
-def _fresh(hk, hidx, call, k, mode, rel="base"):
-    """what a fresh object in a fresh process state returns for the call with the arguments of position k"""
+def hist_construct(W, hdr, ang):
+    """the history object: projection angles not given | as header cards | as constructor keywords"""
+    if ang == "header":
+        return W(dict(hdr, **HIST_ANGLES))
+    if ang == "keyword":
+        return W(hdr, **HIST_ANGLES)
+    if ang != "default":
+        raise MachineryError("unknown angle placement %s" % ang)
+    return W(hdr)
+
+
+def life_step(w, op):
+    import copy
+    import pickle
+    if op == "copy":
+        return copy.copy(w)
+    if op == "deepcopy":
+        return copy.deepcopy(w)
+    if op == "pickle":
+        return pickle.loads(pickle.dumps(w, protocol=pickle.HIGHEST_PROTOCOL))
+    raise MachineryError("unknown life-cycle step %s" % op)
+
+
+def _fresh(hk, hidx, call, k, mode, rel="base", ang="default"):
+    """what a fresh object (constructed like the original) in a fresh process state returns for the call with the arguments
+    of position k"""
     k = k % 4
-    key = (hk, hidx, call, k, mode, rel)
+    key = (hk, hidx, call, k, mode, rel, ang)
     if key not in _FRESH:
         hdr = hist_header(hk, hidx, rel)
         sky = _hist_sky(hk, hidx, k, rel)
@@ -509,8 +596,8 @@ def _fresh(hk, hidx, call, k, mode, rel="base"):
             reset_world()
             W = _wcs().WCS
             if mode == "buffer":
-                return _try(lambda: _hist_call(W(hdr), call, np.array([va], dtype="f8"), np.array([vb], dtype="f8")))
-            return _try(lambda: _hist_call(W(hdr), call, va, vb))
+                return _try(lambda: _hist_call(hist_construct(W, hdr, ang), call, np.array([va], dtype="f8"), np.array([vb], dtype="f8")))
+            return _try(lambda: _hist_call(hist_construct(W, hdr, ang), call, va, vb))
         a, b = one(), one()
         if a[0] != b[0] or (a[0] == "ok" and [v.tobytes() for v in a[1]] != [v.tobytes() for v in b[1]]) or (a[0] == "exc" and a != b):
             raise MachineryError("two fresh objects disagree on %s: %s %s" % (key, a, b))
@@ -533,17 +620,29 @@ def _hist_rel(call, got, want):
 def obs_history(args):
     """mode "scalar": python scalars.  mode "buffer": the caller keeps ONE pair of arrays for the whole sequence and
     overwrites it in place before every call (same argument objects, new contents)."""
-    rid, (hk, hidx, calls, mode) = args
+    rid, (hk, hidx, calls, mode, ang) = args
     W = _wcs().WCS
     cm = _quiet()
     steps = []
     bufa, bufb = np.zeros(1, dtype="f8"), np.zeros(1, dtype="f8")
+    alive = []            # the objects the copies were made from stay alive (a shallow copy shares their scratch arrays)
     try:
         with np.errstate(all="ignore"):
             reset_world()
-            w = _wcs().WCS(hist_header(hk, hidx))
+            w = hist_construct(_wcs().WCS, hist_header(hk, hidx), ang)
             for k, call in enumerate(calls):
-                want, sky = _fresh(hk, hidx, call, k, mode)
+                if call in LIFE_OPS:       # the caller goes on with the copy; a step that raises leaves the handle alone
+                    try:
+                        w2 = life_step(w, call)
+                        alive.append(w)
+                        w = w2
+                        steps.append({"call": call, "rel": "same"})
+                    except MachineryError:
+                        raise
+                    except Exception:  # noqa
+                        steps.append({"call": call, "rel": "rejected"})
+                    continue
+                want, sky = _fresh(hk, hidx, call, k, mode, "base", ang)
                 va, vb = _hist_vals(call, k, sky)
                 if mode == "buffer":
                     bufa[0], bufb[0] = va, vb
@@ -555,7 +654,7 @@ def obs_history(args):
                 steps.append({"call": call, "rel": _hist_rel(call, got, want)})
     finally:
         cm.__exit__(None, None, None)
-    return {"id": rid, "kind": "history", "c": {"hk": hk, "calls": list(calls), "mode": mode}, "o": {"steps": steps}, "x": {"hidx": hidx}}
+    return {"id": rid, "kind": "history", "c": {"hk": hk, "calls": list(calls), "mode": mode, "ang": ang}, "o": {"steps": steps}, "x": {"hidx": hidx}}
 
 
 def obs_world(args):
@@ -747,7 +846,7 @@ def obs_repr(args):
 # =====================================================================================================
 # judging: TLC decides, Python turns rejected records into violations with structural signatures
 # =====================================================================================================
-MACHINERY_CLAUSES = {"rep_not_in_class", "pixel_not_on_anchor", "trace_mismatch", "unknown_record_kind", "header_malformed", "repr_case_malformed"}
+MACHINERY_CLAUSES = {"ang_case_malformed", "rep_not_in_class", "pixel_not_on_anchor", "trace_mismatch", "unknown_record_kind", "header_malformed", "repr_case_malformed"}
 
 
 def _err_sig(h, distort, stage, clause):
@@ -798,9 +897,19 @@ def signature(r, clause):
     if k == "scalar":
         entry = {"i2s": "image2sky", "s2i_r": "sky2image(find=True)", "s2i_p": "sky2image(find=False)", "jac": "get_jacobian"}[c["call"]]
         return "%s|%s|%s,dtype=%s" % (entry, clause, "distorted" if c["distorted"] else "tan", c["dtype"])
+    if k == "angclass":
+        if clause.startswith("unexpected_error"):
+            return "%s|%s|%s,angles_as_%s" % ("WCS()" if x_.get("stage") == "construct" else "image2sky", clause, c["h"]["proj"], c["ang"]["place"])
+        return "image2sky|%s|angles_as_%s" % (clause, c["ang"]["place"])
     if k == "history":
-        bad = sorted({s["call"] for s in o["steps"] if s["rel"] != "same"})
-        return "history|%s|%s,%s%s" % (clause, c["hk"], "+".join(bad), ",reused_argument_buffer" if c.get("mode") == "buffer" else "")
+        bad = sorted({s["call"] for s in o["steps"] if s["rel"] not in ("same", "rejected")})
+        first = min([i for i, s in enumerate(o["steps"]) if s["rel"] not in ("same", "rejected")] or [0])
+        life = sorted({s["call"] for s in o["steps"][:first] if s["call"] in LIFE_OPS})
+        if life:         # the structural class: a copy answers differently - which calls show it is secondary
+            first_life = next(s["call"] for s in o["steps"] if s["call"] in LIFE_OPS)
+            return "history|%s|object_after_%s,angles_as_%s" % (clause, first_life, c.get("ang", "default"))
+        return "history|%s|%s,%s%s%s" % (clause, c["hk"], "+".join(bad), ",reused_argument_buffer" if c.get("mode") == "buffer" else "",
+                                       ",angles_as_" + c["ang"] if c.get("ang", "default") != "default" else "")
     if k == "world":
         bad = sorted({s["call"] for s in o["steps"] if s["rel"] != "same"})
         badrel = sorted({(["base"] + list(c["rels"]))[s["o"] - 1] for s in o["steps"] if s["rel"] != "same"})
@@ -820,7 +929,7 @@ def signature(r, clause):
 def replay_case(r):
     k = r["kind"]
     x_ = r.get("x", {})
-    if k in ("class", "anchor", "refpix"):
+    if k in ("class", "anchor", "refpix", "angclass"):
         c = dict(r["c"])
         if k == "anchor":
             c.update(tansq=r["_case"]["tansq"], allowed=r["_case"]["allowed"])
@@ -833,7 +942,8 @@ def replay_case(r):
     if k == "scalar":
         return {"kind": k, "plan": x_["plan"], "observed": {"o": r["o"], "scalar": x_.get("scalar"), "array": x_.get("array"), "msg": x_.get("msg")}}
     if k == "history":
-        return {"kind": k, "hk": r["c"]["hk"], "hidx": x_["hidx"], "calls": r["c"]["calls"], "mode": r["c"].get("mode", "scalar"), "observed": r["o"]}
+        return {"kind": k, "hk": r["c"]["hk"], "hidx": x_["hidx"], "calls": r["c"]["calls"], "mode": r["c"].get("mode", "scalar"),
+                "ang": r["c"].get("ang", "default"), "observed": r["o"]}
     if k == "world":
         return {"kind": k, "hk": r["c"]["hk"], "hidx": x_["hidx"], "rels": r["c"]["rels"], "calls": r["c"]["calls"], "observed": r["o"]}
     if k == "repr":
@@ -968,15 +1078,17 @@ def run(ctx):
         # one run checks the invariants over the whole bounded space and exports every case (single worker: ordered PrintT)
         r0 = ctx.tlc("WcsMC.tla", what="forward-chain mechanism refines World; dispatch; class soundness (exhaustive) + export",
                      cfg_text=cfg(constants=dict(consts, DoExport=True), init="InitC", next_="NextC", constraints=["Export"],
-                                  invariants=["MechRefines", "S2IDispatchRefines", "ClassSound"]),
-                     workers=1, require=["ChooseShape", "ChooseCoefs", "ChoosePix", "ChooseRef"], timeout=3000)
+                                  invariants=["MechRefines", "S2IDispatchRefines", "ClassSound", "AngRefines"]),
+                     workers=1, require=["ChooseShape", "ChooseCoefs", "ChoosePix", "ChooseRef", "ChooseAng"], timeout=3000)
         if r0.garbled:
             raise MachineryError("unparsed export lines in the class run")
-        small = _consts(tier, CDIds={1, 9}, PixIds={1}, CrpixIds={2}, RefCDIds=set())
+        small = _consts(tier, CDIds={1, 9}, PixIds={1}, CrpixIds={2}, RefCDIds=set(), AngCDIds=set())
         for nm, over, inv in (("pinned SIP handling violates MechRefines", dict(Repaired=False), "MechRefines"),
                               ("pinned find/distort dispatch violates S2IDispatchRefines", dict(Repaired=False), "S2IDispatchRefines"),
                               ("a wrong scamp map violates MechRefines", dict(PVMapVariant="pv2_as_pv1"), "MechRefines"),
-                              ("evaluating the A/B pair over the common shape violates MechRefines", dict(PolyVariant="zip_pair"), "MechRefines")):
+                              ("evaluating the A/B pair over the common shape violates MechRefines", dict(PolyVariant="zip_pair"), "MechRefines"),
+                              ("projection angles given as constructor keywords ignored violates AngRefines",
+                               dict(AngVariant="keyword_dropped", Projs={"TAN"}, AngCDIds={9}, AngPixIds={6}), "AngRefines")):
             r = ctx.tlc("WcsMC.tla", what="self-test: " + nm, cfg_text=cfg(constants=dict(small, **over), init="InitC", next_="NextC", invariants=[inv]),
                         workers=1, allow_violation=True, coverage=False)
             if inv not in r.violated:
@@ -992,17 +1104,24 @@ def run(ctx):
             cases = _dedupe(cases)
         cl = [c for c in cases if c["kind"] == "class"]
         rf = [c for c in cases if c["kind"] == "refpix"]
+        ac = [c for c in cases if c["kind"] == "angclass"]
         if not cl or not rf:
             raise MachineryError("class / refpix export empty")
+        if not all(any(c["ang"]["place"] == pl and c["ang"]["lp"] == lp for c in ac) for pl in ("header", "keyword") for lp in (0, 90, 180, 270)):
+            raise MachineryError("angle classes: a placement x LONPOLE combination was not exported")
         crecs = pmap(obs_class, [(i, {kk: c[kk] for kk in ("h", "pix", "distort", "rep")}, i + seed) for i, c in zip(ids(len(cl)), cl)])
         rrecs = pmap(obs_refpix, [(i, c, i + seed) for i, c in zip(ids(len(rf)), rf)])
         for r, c in zip(rrecs, rf):
             r["_case"] = c
-        for r in crecs + rrecs:
+        arecs0 = pmap(obs_angclass, [(i, {kk: c[kk] for kk in ("h", "pix", "distort", "rep", "ang")}, i + seed) for i, c in zip(ids(len(ac)), ac)])
+        probe["angclass"] = next((r for r in arecs0 if r["o"]["err"] == "none" and r["o"]["rel"] in ("same", "close") and r["c"]["ang"]["lp"] == 90
+                                  and r["c"]["ang"]["place"] == "keyword"), None)
+        ctx.note(angle_class_cases=len(ac), angle_class_errors=sum(1 for r in arecs0 if r["o"]["err"] != "none"))
+        for r in crecs + rrecs + arecs0:
             ctx.count({"kind": r["kind"], "c": r["c"], "k": r["x"].get("k")})
         ctx.sample({"class_case": crecs[len(crecs) // 3]["c"], "observed": crecs[len(crecs) // 3]["o"], "detail": crecs[len(crecs) // 3]["x"]})
         ctx.sample({"refpix_case": rrecs[len(rrecs) // 2]["c"], "observed": rrecs[len(rrecs) // 2]["o"], "detail": rrecs[len(rrecs) // 2]["x"]})
-        recs += crecs + rrecs
+        recs += crecs + rrecs + arecs0
         probe["class"] = next((r for r in crecs if r["o"]["err"] == "none" and r["o"]["rel"] in ("same", "close")), None)
         nclasses = len({str(c["rep"]) for c in cl})
         ctx.note(class_cases=len(cl), distinct_world_values=nclasses, refpix_cases=len(rf),
@@ -1115,12 +1234,14 @@ def run(ctx):
                         workers=1, allow_violation=True, coverage=False)
             if "HistoryIndependent" not in r.violated:
                 raise MachineryError("self-test failed: %s variant not caught" % variant)
-        for variant, over in (("solver_cached", dict(HistCalls=OPT_CALLS, MaxHist=2, ShortKinds=set(), HistArgModes={"scalar"})),):
-            r = ctx.tlc("WcsMC.tla", what="self-test: %s object violates HistoryIndependent" % variant,
+        for variant, over in (("solver_cached", dict(HistCalls=OPT_CALLS, MaxHist=2, ShortKinds=set(), HistArgModes={"scalar"})),
+                              ("pinned", dict(LIFE_HIST[tier], LifeVariant="rebuild_from_header", MaxHist=2, HistKinds={"TAN"}))):
+            name = over.get("LifeVariant", variant)
+            r = ctx.tlc("WcsMC.tla", what="self-test: %s object violates HistoryIndependent" % name,
                         cfg_text=cfg(constants=dict(consts, HistVariant=variant, **over), init="InitH", next_="NextH", invariants=["HistoryIndependent"]),
                         workers=1, allow_violation=True, coverage=False)
             if "HistoryIndependent" not in r.violated:
-                raise MachineryError("self-test failed: %s variant not caught" % variant)
+                raise MachineryError("self-test failed: %s variant not caught" % name)
         ctx.log("replaying histories")
         hs = _export(ctx, consts, "export every call sequence of length %d" % B["MaxHist"], "InitH", "NextH", tag="HIST")
         # the documented options of the calls (loose / tight xtol, jacobian step / distort) and a call rejected half-way
@@ -1131,11 +1252,21 @@ def run(ctx):
         hopt = _dedupe(ro.records.get("HIST", []))
         if ro.garbled or not any("s2i_dr_xl" in h["calls"][:-1] for h in hopt) or not any("s2i_fail" in h["calls"][:-1] for h in hopt):
             raise MachineryError("option-call histories: no sequence with a loose-xtol / rejected call before the last call")
+        # life-cycle steps (copy / deepcopy / pickle) x where the object got its projection angles
+        lc = dict(consts, **LIFE_HIST[tier])
+        rl = ctx.tlc("WcsMC.tla", what="history machine with copy / deepcopy / pickle steps x angle placement: result = fresh original's + export",
+                     cfg_text=cfg(constants=dict(lc, DoExport=True), init="InitH", next_="NextH", invariants=["HistoryIndependent"], constraints=["Export"]),
+                     workers=1, require=["ChooseKind", "Call", "Life"], timeout=3000)
+        # a sequence is informative when a call follows a life-cycle step
+        hlife = [h for h in _dedupe(rl.records.get("HIST", []))
+                 if h["calls"][-1] not in LIFE_OPS and any(cl_ in LIFE_OPS for cl_ in h["calls"])]
+        if rl.garbled or not all(any(h["ang"] == a and op in h["calls"][:-1] for h in hlife) for a in ANG_PLACES for op in LIFE_OPS):
+            raise MachineryError("life-cycle histories: an angle placement x life-cycle step combination was not exported")
         # long random histories over the whole alphabet (tlc -simulate), rejected calls interleaved
         D = DEEP[tier]
         rd = ctx.tlc("WcsMC.tla", what="simulate long object histories (depth %d)" % D["depth"],
                      cfg_text=cfg(constants=dict(consts, DoExport=True, HistCalls=ALL_CALLS, MaxHist=D["depth"], ShortKinds=set(),
-                                                 HistKinds={"TPV", "SIP"}), init="InitH", next_="NextH",
+                                                 HistKinds={"TPV", "SIP"}, LifeCalls=LIFE_OPS, HistAngs=ANG_PLACES), init="InitH", next_="NextH",
                                   invariants=["HistoryIndependent"], constraints=["Export"]),
                      workers=1, coverage=False, timeout=3000, simulate="num=%d" % D["num"],
                      extra=["-depth", str(D["depth"] + 3), "-seed", str(1000 + seed)])
@@ -1143,13 +1274,15 @@ def run(ctx):
         if len(deep) < D["num"] // 3 or any(len(h["calls"]) < D["depth"] - 1 for h in deep):
             raise MachineryError("simulation produced %d long histories" % len(deep))
         nhdr = 1 if ctx.quick else 2
-        plan = [(h["hk"], hidx, h["calls"], h["mode"]) for h in hs for hidx in range(nhdr)]
-        plan += [(h["hk"], 0, h["calls"], h["mode"]) for h in hopt]
-        plan += [(h["hk"], i % 3, h["calls"], h["mode"]) for i, h in enumerate(deep)]
+        plan = [(h["hk"], hidx, h["calls"], h["mode"], h.get("ang", "default")) for h in hs for hidx in range(nhdr)]
+        plan += [(h["hk"], 0, h["calls"], h["mode"], h.get("ang", "default")) for h in hopt]
+        plan += [(h["hk"], i % 3, h["calls"], h["mode"], h["ang"]) for i, h in enumerate(hlife)]
+        plan += [(h["hk"], i % 3, h["calls"], h["mode"], h["ang"]) for i, h in enumerate(deep)]
         cm = _quiet()          # the fresh-object references are computed once, before the fork
         try:
             with np.errstate(all="ignore"):
-                for key in sorted({(hk_, hidx, call, k % 4, mode) for (hk_, hidx, calls, mode) in plan for k, call in enumerate(calls)}):
+                for key in sorted({(hk_, hidx, call, k % 4, mode, "base", ang) for (hk_, hidx, calls, mode, ang) in plan
+                                   for k, call in enumerate(calls) if call not in LIFE_OPS}):
                     _fresh(*key)
         finally:
             cm.__exit__(None, None, None)
@@ -1158,7 +1291,13 @@ def run(ctx):
             ctx.count({"kind": "history", "c": r["c"], "hidx": r["x"]["hidx"]})
         ctx.sample({"history": hrecs[len(hrecs) // 2]["c"], "observed": hrecs[len(hrecs) // 2]["o"]})
         recs += hrecs
-        ctx.note(history_option_sequences=len(hopt), history_long_sequences=len(deep), history_long_depth=D["depth"])
+        ctx.note(history_option_sequences=len(hopt), history_long_sequences=len(deep), history_long_depth=D["depth"],
+                 history_life_cycle_sequences=len(hlife),
+                 history_life_cycle_steps_rejected=sum(1 for r in hrecs for s_ in r["o"]["steps"] if s_["rel"] == "rejected"))
+        if not any(s_["call"] in LIFE_OPS and s_["rel"] == "same" for r in hrecs for s_ in r["o"]["steps"]):
+            raise MachineryError("no life-cycle step produced a copy: the copy / pickle dimension was not exercised")
+        probe["life"] = next((r for r in hrecs if r["c"]["ang"] == "keyword" and r["c"]["calls"][0] in LIFE_OPS
+                              and all(s_["rel"] == "same" for s_ in r["o"]["steps"])), None)
 
         # ---- the world: several objects alive in one process -------------------------------------------------------
         ctx.tlc("WcsMC.tla", what="world machine: every result equals the fresh object's in a fresh process (all interleavings)",
@@ -1203,7 +1342,8 @@ def run(ctx):
             raise MachineryError("no history with a re-used argument buffer was exported")
         ctx.note(history_sequences=len(hrecs), history_steps=nsteps, history_sequences_reused_buffer=sum(1 for r in hrecs if r["c"]["mode"] == "buffer"),
                  history_steps_bitwise_identical=sum(1 for r in hrecs for s in r["o"]["steps"] if s["rel"] == "same"))
-        probe["history"] = next((r for r in hrecs if all(s["rel"] == "same" for s in r["o"]["steps"])), None)
+        probe["history"] = next((r for r in hrecs if all(s["rel"] == "same" for s in r["o"]["steps"])
+                                 and not any(cl_ in LIFE_OPS for cl_ in r["c"]["calls"])), None)
 
     ctx.log("judging %d records" % len(recs))
     # ---- code -> spec: TLC judges every record -----------------------------------------------------------------------
@@ -1244,9 +1384,22 @@ def run(ctx):
         if p:
             corrupt.append(({"id": 9, "kind": "repr", "c": p["c"], "o": dict(p["o"], rel=list(p["o"]["rel"][:-1]) + ["off"])}, "representation_changes_result"))
             corrupt.append(({"id": 10, "kind": "repr", "c": p["c"], "o": {"err": "TypeError", "rel": []}}, "unexpected_error"))
+        p = probe.get("angclass")
+        if p:
+            corrupt.append(({"id": 12, "kind": "angclass", "c": p["c"], "o": dict(p["o"], rel="off")}, "projection_angle_misapplied"))
+            cc = dict(p["c"], ang=dict(p["c"]["ang"], lp=180))      # the representative of LONPOLE 90 is not that of the default
+            corrupt.append(({"id": 13, "kind": "angclass", "c": cc, "o": p["o"]}, "rep_not_in_class"))
+        p = probe.get("life")
+        if p:
+            st = [dict(s_) for s_ in p["o"]["steps"]]
+            st[-1]["rel"] = "close"          # the copy answers differently from a fresh original
+            corrupt.append(({"id": 14, "kind": "history", "c": p["c"], "o": {"steps": st}}, "result_depends_on_history"))
+            st = [dict(s_) for s_ in p["o"]["steps"]]
+            st[-1]["rel"] = "rejected"       # only a life-cycle step may be rejected
+            corrupt.append(({"id": 15, "kind": "history", "c": p["c"], "o": {"steps": st}}, "result_depends_on_history"))
         originals = [{"id": 100 + i, "kind": probe[k]["kind"], "c": probe[k]["c"], "o": probe[k]["o"]}
                      for i, k in enumerate(sorted(probe)) if probe[k]]
-        if len(corrupt) < 11:
+        if len(corrupt) < 15:
             raise MachineryError("binding self-test: no accepted record of some kind to corrupt (%s)" % sorted(k for k in probe if probe[k]))
         saved = ctx.traces
         rej = tracecheck.validate(ctx, "WcsTrace.tla", [c for c, _ in corrupt] + originals, what="self-test: corrupted records rejected", workers=1)
@@ -1293,6 +1446,8 @@ def replay(ctx, case):
     k = case["kind"]
     if k == "class":
         r = obs_class((1, case["c"], case["k"]))
+    elif k == "angclass":
+        r = obs_angclass((1, case["c"], case["k"]))
     elif k == "anchor":
         r = obs_anchor((1, case["c"], case["k"]))
         r["_case"] = case["c"]
@@ -1306,7 +1461,7 @@ def replay(ctx, case):
     elif k == "scalar":
         r = obs_scalar((1, tuple(case["plan"])))
     elif k == "history":
-        r = obs_history((1, (case["hk"], case["hidx"], case["calls"], case.get("mode", "scalar"))))
+        r = obs_history((1, (case["hk"], case["hidx"], case["calls"], case.get("mode", "scalar"), case.get("ang", "default"))))
     elif k == "world":
         r = obs_world((1, (case["hk"], case["hidx"], case["rels"], case["calls"])))
     elif k == "repr":
